@@ -261,7 +261,22 @@ impl Typer {
             }
         }
 
+        #[cfg(goml_verif)]
+        let verif_round_budget = 1000 + 8 * constraints.len();
+        #[cfg(goml_verif)]
+        let mut verif_rounds = 0usize;
+
         while changed {
+            #[cfg(goml_verif)]
+            {
+                verif_rounds += 1;
+                if verif_rounds > verif_round_budget {
+                    panic!(
+                        "goml_verif: constraint solver did not converge after {} rounds",
+                        verif_round_budget
+                    );
+                }
+            }
             changed = false;
             let mut still_pending = Vec::new();
             for constraint in constraints.drain(..) {
